@@ -313,8 +313,8 @@ def _fmt_sites(root):
 
 def ob_avg_siblings(ctx, res):
     """C17-S1"""
-    main = ctx.ast.fn(AV, "bigwigaverageoverbed")
-    pc = ctx.ast.fn(AV, "process_chunk")
+    main = ctx.ast.fn(AV, "bigwigaverageoverbed", inline=True, keep=("process_chunk",))
+    pc = ctx.ast.fn(AV, "process_chunk", inline=True)
     ser = [n for n in walk_no_nested_fn(main.body) if n.k == "if" and up(strip(n["cond"])) == "parallel"]
     if len(ser) != 1 or ser[0].get("else") is None:
         res.fail("avgSiblings/shape", main, "`if parallel {..} else {..}` not found")
@@ -400,8 +400,12 @@ def ob_avg_reassembly(ctx, res):
         return
     cs = [c for c in walk_no_nested_fn(fn.body) if c.k == "call" and up(c["func"]) == "process_chunk"]
     for c in cs:
-        st = binding_before(fn, up(strip(c["args"][0])), c)
-        if st is None or st[0] != "let" or st[1]["pat"].k != "p_tuple" or [up(e) for e in st[1]["pat"]["elems"]][:2] != [up(strip(c["args"][0])), up(strip(c["args"][1]))]:
+        a0, a1 = strip(c["args"][0]), strip(c["args"][1])
+        st = binding_before(fn, up(a0), c) if a0.k == "path" else None
+        st1 = binding_before(fn, up(a1), c) if a1.k == "path" else None
+        # both names come from positions 0 and 1 of ONE pattern (a tuple `let`, `while let Ok((start, end, ..)) = rx.recv()`, a match arm ..)
+        same = st is not None and st1 is not None and st[1] is st1[1] and st[-1] and st1[-1] and st[-1][:-1] == st1[-1][:-1] and st[-1][-1] == 0 and st1[-1][-1] == 1
+        if not same:
             res.fail("avgReassembly/chunk-args", c, "process_chunk must receive the (start, end) pair of the received work item positionally")
             return
     res.ok(pc, "each worker reads FileView[start, end) of its chunk pair (%d call sites)" % len(cs))
@@ -429,15 +433,29 @@ def ob_values_over_bed(ctx, res):
     if not okv:
         res.fail("valuesOverBed/size", fn, "the per-region array must have end - start slots")
         return
+    from ..astq import iter_loops, upn
     st = [n for n in walk_no_nested_fn(fn.body) if n.k == "assign" and strip(n["l"]).k == "index"]
-    if len(st) != 1 or up(strip(st[0]["l"])).replace(" ", "") != "vals[(i-start)asusize]" or up(strip(st[0]["r"])) != "val.value":
-        res.fail("valuesOverBed/fill", fn, "slot i - start must receive the value covering base i")
+    if len(st) != 1:
+        res.undecided("valuesOverBed/fill", fn, "expected one indexed assignment filling the per-region array, found %d" % len(st))
         return
-    lp = st[0].parent
-    while lp is not None and lp.k != "for":
-        lp = lp.parent
-    if lp is None or up(strip(lp["iter"])) != "val.start..val.end":
-        res.fail("valuesOverBed/range", fn, "each returned (clipped) value fills bases val.start..val.end")
+    # the innermost per-item loop around the assignment: `for i in a..b` or `(a..b).for_each(|i| ..)`
+    lps = [l for l in iter_loops(fn.body) if any(x is st[0] for x in walk_no_nested_fn(l["body"]))]
+    lps.sort(key=lambda l: -l.order)
+    if not lps:
+        res.undecided("valuesOverBed/fill", st[0], "the per-base loop around the slot assignment was not recognised")
+        return
+    lp = lps[0]
+    iv = up(lp["pat"]).replace("mut ", "")
+    outer = [l for l in lps[1:]]
+    vv = up(outer[0]["pat"]).replace("mut ", "") if outer else "val"
+    startn = up(strip(gi[0]["args"][1]))
+    want_slot = sorted(["vals[%s - %s as usize]" % (iv, startn)])
+    slot = upn(fn, st[0]["l"])
+    if not re.fullmatch(r"\w+\[\(?%s - %s\)? as usize\]" % (re.escape(iv), re.escape(startn)), slot) or upn(fn, st[0]["r"]) != vv + ".value":
+        res.fail("valuesOverBed/fill", st[0], "slot i - start must receive the value covering base i; the statement is `%s = %s`" % (slot, upn(fn, st[0]["r"])))
+        return
+    if upn(fn, lp["iter"]) != "%s.start..%s.end" % (vv, vv):
+        res.fail("valuesOverBed/range", st[0], "each returned (clipped) value fills bases val.start..val.end; the loop runs over `%s`" % upn(fn, lp["iter"]))
         return
     res.ok(fn, "per region: array of end-start slots; each returned value fills slots [val.start-start, val.end-start)")
 
